@@ -37,7 +37,8 @@ Definition step_eqvb (n : nat) (a b : nat * estep) : bool :=
   | ESpan e sid, ESpan e' sid' => andb (Nat.eqb i j) (andb (elem_eqvb e e') (Nat.eqb sid sid'))
   | EPatch m sid w le cw sl, EPatch m' sid' w' le' cw' sl' =>
       andb (andb (andb (Nat.eqb m m') (Nat.eqb sid sid')) (andb (Nat.eqb w w') (order_eqb w le le')))
-           (andb (andb (Nat.eqb cw cw') (andb (slice_ok sl w) (slice_ok sl' w'))) (andb (Nat.ltb i n) (Nat.ltb j n)))
+           (andb (andb (orb (Nat.eqb cw cw') (andb (Nat.leb w cw) (Nat.leb w cw'))) (andb (slice_ok sl w) (slice_ok sl' w')))
+                 (andb (Nat.ltb i n) (Nat.ltb j n)))
   | ECheck alg w le, ECheck alg' w' le' =>
       andb (Nat.eqb i j) (andb (String.eqb alg alg') (andb (Nat.eqb w w') (order_eqb w le le')))
   | _, _ => andb (Nat.eqb i j) (elem_eqvb s t)
